@@ -147,27 +147,16 @@ ChopGrade(n) ==
     ELSE /\ wg' = [wg EXCEPT ![n] = [i \in 1..4 |-> wg[n][i] \o chops[n]]]
          /\ axg' = [axg EXCEPT ![n] = axg[n] \o chops[n]]
 
-\* Axis.grade on a propagated direction since the repair of the second write: what an earlier grade() copied from the
-\* neighbours - chops and wire gradings, calculated with the lengths of that time - is forgotten first; then copy_neighbours
-\* (nothing to propagate: the node holds no chops until the propagation phase copies them again)
-PickFresh(c) == IF c.i = 0 THEN <<>> ELSE IF c.al THEN wg[c.n][c.i] ELSE InvSeq(wg[c.n][c.i])
-ResetGrade(n) ==
-    /\ chops' = [chops EXCEPT ![n] = <<>>]
-    /\ \E c1 \in Opts(n, 1), c2 \in Opts(n, 2), c3 \in Opts(n, 3), c4 \in Opts(n, 4) :
-          wg' = [wg EXCEPT ![n] = <<PickFresh(c1), PickFresh(c2), PickFresh(c3), PickFresh(c4)>>]
-
 NextPc(p) == IF p[2] < 2 THEN <<p[1], p[2] + 1>> ELSE <<p[1] + 1, 0>>
 
 \* BlockList.grade_blocks: blocks in list order, axes 0,1,2
 GradeStep ==
     /\ phase = "grade"
-    /\ IF IsChopMgr(pc) THEN ChopGrade(pc) /\ UNCHANGED chops
-       ELSE /\ IF Variant = "fixed" THEN ResetGrade(pc) ELSE PropGrade(pc, chops[pc]) /\ UNCHANGED chops
-            /\ UNCHANGED axg
+    /\ IF IsChopMgr(pc) THEN ChopGrade(pc) ELSE PropGrade(pc, chops[pc]) /\ UNCHANGED axg
     /\ IF NextPc(pc)[1] > NB
        THEN /\ phase' = "prop" /\ pc' = <<0, 0>> /\ todo' = Blocks
        ELSE /\ phase' = phase /\ pc' = NextPc(pc) /\ todo' = todo
-    /\ UNCHANGED <<cfgvars, undef, updated, passes, outcome, round>>
+    /\ UNCHANGED <<cfgvars, chops, undef, updated, passes, outcome, round>>
 
 \* one iteration of `for i in undefined_blocks`: pick a block (set iteration order is free)
 StartPass == /\ todo' = undef /\ updated' = FALSE
@@ -222,14 +211,21 @@ Check ==
     /\ UNCHANGED <<cfgvars, chops, axg, wg, pc, todo, undef, updated, passes, round>>
 
 \* the user writes (grades) the same assembled mesh once more - after a written file, or after an error that was caught
-\* (retry, another path): everything the first grade() left behind is still there when grade_blocks starts over - it is
-\* GradeStep that clears it, direction by direction; OutcomeOK holds for the second attempt as for the first
+\* (retry, another path).  BlockList.grade_blocks since the repair of the second write: before the first block is graded
+\* again, every propagated direction forgets what the earlier grade() copied from its neighbours - chops and wire gradings,
+\* calculated with the lengths of that time (resetting each direction only when its own turn came let a block copy what its
+\* neighbour still held); the user-chopped directions empty their gradings themselves when they are graded (ChopGrade).
+\* At the pinned commit ("shipped") everything is left as it was.  OutcomeOK holds for the second attempt as for the first.
 Regrade ==
     /\ phase = "done" /\ round < Rounds
     /\ round' = round + 1
     /\ phase' = "grade" /\ pc' = <<1, 0>> /\ todo' = {} /\ undef' = Blocks
     /\ updated' = FALSE /\ passes' = 0 /\ outcome' = "none"
-    /\ UNCHANGED <<cfgvars, chops, axg, wg>>
+    /\ IF Variant = "fixed"
+       THEN /\ chops' = uchops
+            /\ wg' = [n \in Nodes |-> IF IsChopMgr(n) THEN wg[n] ELSE [i \in 1..4 |-> <<>>]]
+       ELSE UNCHANGED <<chops, wg>>
+    /\ UNCHANGED <<cfgvars, axg>>
 
 Next == GradeStep \/ (\E b \in Blocks : VisitBlock(b)) \/ CopyAxis \/ EndPass \/ Check \/ Regrade
 Done == phase = "done" /\ UNCHANGED vars
